@@ -38,6 +38,7 @@ Definition eUDPEnd : Z := 19.         (* FormError "unexpected end of UDP IXFR" 
 Definition eBackwards : Z := 20.      (* SerialWentBackwards *)
 Definition eUseTCP : Z := 21.         (* UseTCP *)
 Definition eDeleteNotExact : Z := 22. (* dns.transaction.DeleteNotExact *)
+Definition eMissingTSIG : Z := 23.    (* FormError "missing TSIG" *)
 Definition eValueClass : Z := 30.     (* ValueError "... has objects of wrong RdataClass" *)
 Definition eValueSOA : Z := 31.       (* ValueError "... has non-origin SOA" *)
 Definition eValueInit : Z := 32.      (* ValueError raised by Inbound.__init__ *)
@@ -208,29 +209,33 @@ Record st := mkSt {
   soa : option rrset;    (* self.soa_rdataset *)
   done : bool;
   expecting : bool;      (* self.expecting_SOA *)
-  delmode : bool         (* self.delete_mode *)
+  delmode : bool;        (* self.delete_mode *)
+  req_tsig : bool        (* self.require_tsig *)
 }.
 
-Definition set_pub (s : st) v := mkSt v (txn s) (rdtype s) (incremental s) (serial s) (is_udp s) (soa s) (done s) (expecting s) (delmode s).
-Definition set_txn (s : st) v := mkSt (pub s) v (rdtype s) (incremental s) (serial s) (is_udp s) (soa s) (done s) (expecting s) (delmode s).
-Definition set_incremental (s : st) v := mkSt (pub s) (txn s) (rdtype s) v (serial s) (is_udp s) (soa s) (done s) (expecting s) (delmode s).
-Definition set_serial (s : st) v := mkSt (pub s) (txn s) (rdtype s) (incremental s) v (is_udp s) (soa s) (done s) (expecting s) (delmode s).
-Definition set_soa (s : st) v := mkSt (pub s) (txn s) (rdtype s) (incremental s) (serial s) (is_udp s) v (done s) (expecting s) (delmode s).
-Definition set_done (s : st) v := mkSt (pub s) (txn s) (rdtype s) (incremental s) (serial s) (is_udp s) (soa s) v (expecting s) (delmode s).
-Definition set_expecting (s : st) v := mkSt (pub s) (txn s) (rdtype s) (incremental s) (serial s) (is_udp s) (soa s) (done s) v (delmode s).
-Definition set_delmode (s : st) v := mkSt (pub s) (txn s) (rdtype s) (incremental s) (serial s) (is_udp s) (soa s) (done s) (expecting s) v.
+Definition set_pub (s : st) v := mkSt v (txn s) (rdtype s) (incremental s) (serial s) (is_udp s) (soa s) (done s) (expecting s) (delmode s) (req_tsig s).
+Definition set_txn (s : st) v := mkSt (pub s) v (rdtype s) (incremental s) (serial s) (is_udp s) (soa s) (done s) (expecting s) (delmode s) (req_tsig s).
+Definition set_incremental (s : st) v := mkSt (pub s) (txn s) (rdtype s) v (serial s) (is_udp s) (soa s) (done s) (expecting s) (delmode s) (req_tsig s).
+Definition set_serial (s : st) v := mkSt (pub s) (txn s) (rdtype s) (incremental s) v (is_udp s) (soa s) (done s) (expecting s) (delmode s) (req_tsig s).
+Definition set_soa (s : st) v := mkSt (pub s) (txn s) (rdtype s) (incremental s) (serial s) (is_udp s) v (done s) (expecting s) (delmode s) (req_tsig s).
+Definition set_done (s : st) v := mkSt (pub s) (txn s) (rdtype s) (incremental s) (serial s) (is_udp s) (soa s) v (expecting s) (delmode s) (req_tsig s).
+Definition set_expecting (s : st) v := mkSt (pub s) (txn s) (rdtype s) (incremental s) (serial s) (is_udp s) (soa s) (done s) v (delmode s) (req_tsig s).
+Definition set_delmode (s : st) v := mkSt (pub s) (txn s) (rdtype s) (incremental s) (serial s) (is_udp s) (soa s) (done s) (expecting s) v (req_tsig s).
 
 (* Inbound.__init__ (the origin is always known for a zone) *)
-Definition init (z : zone) (rdt : Z) (ser : option Z) (udp : bool) : st + Z :=
+Definition init_t (req : bool) (z : zone) (rdt : Z) (ser : option Z) (udp : bool) : st + Z :=
   if rdt =? tIXFR then
     match ser with
     | None => inr eValueInit
-    | Some sv => inl (mkSt z None rdt true sv udp None false false false)
+    | Some sv => inl (mkSt z None rdt true sv udp None false false false req)
     end
   else if rdt =? tAXFR then
     if udp then inr eValueInit
-    else inl (mkSt z None rdt false (match ser with Some sv => sv | None => 0 end) udp None false false false)
+    else inl (mkSt z None rdt false (match ser with Some sv => sv | None => 0 end) udp None false false false req)
   else inr eValueInit.
+
+(* require_tsig defaults to False *)
+Definition init (z : zone) (rdt : Z) (ser : option Z) (udp : bool) : st + Z := init_t false z rdt ser udp.
 
 (* soa.serial of rdataset[0] *)
 Definition soa_serial (s : rrset) : option Z :=
@@ -240,7 +245,7 @@ Definition soa_serial (s : rrset) : option Z :=
   end.
 
 (* a parsed message as process_message sees it *)
-Record message := mkMsg { m_rcode : Z; m_question : list (Z * Z); m_answer : list rrset }.
+Record message := mkMsg { m_rcode : Z; m_question : list (Z * Z); m_answer : list rrset; m_tsig : bool (* message.had_tsig *) }.
 
 Definition res_of {A} (s : st) (r : res A) (k : A -> st * option Z) : st * option Z :=
   match r with
@@ -249,8 +254,14 @@ Definition res_of {A} (s : st) (r : res A) (k : A -> st * option Z) : st * optio
   | Internal e => (s, Some e)
   end.
 
-(* the body of "for index, rrset in enumerate(rrsets)"; [last] = (index == len(rrsets) - 1) *)
-Definition step (last : bool) (s : st) (r : rrset) : st * option Z :=
+(* where an RRset stands in its message: not the last one; the last one of a message that carries a
+   TSIG; the last one of a message without TSIG *)
+Inductive flag := Mid | Last | LastNoSig.
+Definition flag_of_bool (b : bool) : flag := if b then Last else Mid.
+Coercion flag_of_bool : bool >-> flag.
+
+(* the body of "for index, rrset in enumerate(rrsets)" *)
+Definition step (fl : flag) (s : st) (r : rrset) : st * option Z :=
   if done s then (s, Some eAfterFinal)
   else
     match txn s with
@@ -267,10 +278,16 @@ Definition step (last : bool) (s : st) (r : rrset) : st * option Z :=
             | Some ss =>
                 if expecting s then (s, Some eEmptyIXFR)
                 else if incremental s && negb (serial s =? ss) then (s, Some eUnexpectedEnd)
-                else if negb last then (s, Some eAfterFinal)
                 else
-                  res_of s (t_add true tz r)
-                    (fun tz' => (set_done (set_txn (set_pub s tz') None) true, None))   (* commit *)
+                  match fl with
+                  | Mid => (s, Some eAfterFinal)                 (* index != len(rrsets) - 1 *)
+                  | _ =>
+                      if req_tsig s && (match fl with LastNoSig => true | _ => false end)
+                      then (s, Some eMissingTSIG)                (* require_tsig and not message.had_tsig *)
+                      else
+                        res_of s (t_add true tz r)
+                          (fun tz' => (set_done (set_txn (set_pub s tz') None) true, None))   (* commit *)
+                  end
             end
           else
             let s := set_expecting s false in
@@ -298,15 +315,18 @@ Definition step (last : bool) (s : st) (r : rrset) : st * option Z :=
             res_of s (t_add false tz r) (fun tz' => (set_txn s (Some tz'), None))
     end.
 
-Fixpoint loop (s : st) (rs : list rrset) : st * option Z :=
+Fixpoint loopT (sig : bool) (s : st) (rs : list rrset) : st * option Z :=
   match rs with
   | [] => (s, None)
   | r :: rest =>
-      match step (match rest with [] => true | _ => false end) s r with
+      match step (match rest with [] => (if sig then Last else LastNoSig) | _ => Mid end) s r with
       | (s', Some e) => (s', Some e)
-      | (s', None) => loop s' rest
+      | (s', None) => loopT sig s' rest
       end
   end.
+
+(* the loop over the RRsets of a message that carries a TSIG *)
+Notation loop := (loopT true).
 
 (* Inbound.process_message; the returned state is the state at return / at the raise *)
 Definition process_message (s : st) (m : message) : st * option Z :=
@@ -330,7 +350,7 @@ Definition process_message (s : st) (m : message) : st * option Z :=
           | (s', None) => if is_udp s' && negb (done s') then (s', Some eUDPEnd) else (s', None)
           end in
         match soa s with
-        | Some _ => after (loop s (m_answer m))
+        | Some _ => after (loopT (m_tsig m) s (m_answer m))
         | None =>
             match m_answer m with
             | [] => (s, Some eNoAnswer)
@@ -343,22 +363,23 @@ Definition process_message (s : st) (m : message) : st * option Z :=
                     match soa_serial r0 with
                     | None => (s, Some eIndex)
                     | Some ss =>
-                        if ss =? serial s then after (loop (set_done s true) rest)
+                        if ss =? serial s then after (loopT (m_tsig m) (set_done s true) rest)
                         else if serial_lt ss (serial s) then (s, Some eBackwards)
                         else if is_udp s && (match rest with [] => true | _ => false end)
                              then (s, Some eUseTCP)
-                        else after (loop (set_expecting s true) rest)
+                        else after (loopT (m_tsig m) (set_expecting s true) rest)
                     end
-                  else after (loop s rest)
+                  else after (loopT (m_tsig m) s rest)
             end
         end
     end.
 
 (* ---- dns/query.py _inbound_xfr: one wire message = rcode, questions, answer records ---- *)
-Record wmsg := mkW { w_rcode : Z; w_question : list (Z * Z); w_records : list rr }.
+Record wmsg := mkWT { w_rcode : Z; w_question : list (Z * Z); w_records : list rr; w_tsig : bool }.
+Definition mkW (rc : Z) (q : list (Z * Z)) (rs : list rr) : wmsg := mkWT rc q rs false.
 
 Definition from_wire (one_rr : bool) (w : wmsg) : message :=
-  mkMsg (w_rcode w) (w_question w) (group one_rr (w_records w)).
+  mkMsg (w_rcode w) (w_question w) (group one_rr (w_records w)) (w_tsig w).
 
 Inductive result :=
 | Done (z : zone)            (* the generator ran to completion; z = zone content afterwards *)
@@ -378,11 +399,16 @@ Fixpoint drive (one_rr : bool) (s : st) (ws : list wmsg) : result * nat :=
       end
   end.
 
-Definition inbound_xfr (z : zone) (rdt : Z) (ser : option Z) (udp : bool) (ws : list wmsg) : result * nat :=
-  match init z rdt ser udp with
+(* req = bool(query.keyring) *)
+Definition xfr_run (req : bool) (z : zone) (rdt : Z) (ser : option Z) (udp : bool) (ws : list wmsg) : result * nat :=
+  match init_t req z rdt ser udp with
   | inr e => (Error e z, 0%nat)
   | inl s => drive (rdt =? tIXFR) s ws
   end.
+
+(* a transfer without TSIG keyring *)
+Definition inbound_xfr (z : zone) (rdt : Z) (ser : option Z) (udp : bool) (ws : list wmsg) : result * nat :=
+  xfr_run false z rdt ser udp ws.
 
 (* feeding already parsed messages to process_message one after the other (the public API used
    without the driver): per-message results (0 = returned False, rTrue = returned True, otherwise the
@@ -549,6 +575,11 @@ Definition wmsg_of_obs (o : obs) : option wmsg :=
       | Some q, Some rs => Some (mkW rc q rs)
       | _, _ => None
       end
+  | L [I rc; L q; L rs; I sg] =>
+      match qs_of_obs q, rrs_of_obs rs with
+      | Some q, Some rs => Some (mkWT rc q rs (sg =? 1))
+      | _, _ => None
+      end
   | _ => None
   end.
 
@@ -581,7 +612,7 @@ Definition msg_of_obs (o : obs) : option message :=
   match o with
   | L [I rc; L q; L rs] =>
       match qs_of_obs q, rrsets_of_obs rs with
-      | Some q, Some rs => Some (mkMsg rc q rs)
+      | Some q, Some rs => Some (mkMsg rc q rs false)
       | _, _ => None
       end
   | _ => None
@@ -693,6 +724,17 @@ Definition run (c : obs) : obs :=
           | Internal e => E e
           end
       | _, _ => E eBadCase
+      end
+  (* 11: a transfer with a TSIG keyring in use (require_tsig); every message carries its had_tsig flag.
+         [11; zone kind; relativize; rdtype; serial; zone; messages; ...] *)
+  | L (I 11 :: I _ :: I _ :: I rdt :: ser :: L z :: L ws :: _) =>
+      match oz_of_obs ser, zone_of_obs z, wmsgs_of_obs ws with
+      | Some ser, Some z, Some ws =>
+          match xfr_run true z rdt ser false ws with
+          | (Done z', _) => L [I 0; obs_of_zone z']
+          | (Error e z', _) => L [I e; obs_of_zone z']
+          end
+      | _, _, _ => E eBadCase
       end
   (* 10: extract_serial_from_query on a hand-made query: question rdtype, SOA serial in the authority section or none *)
   | L [I 10; I qt; au] =>
